@@ -6,6 +6,20 @@ BASELINE = ("cd /repo && /venv/bin/python -m pytest -ra -q -p no:cacheprovider -
             "--continue-on-collection-errors")
 
 CHECKS = {
+    'C11': dict(
+        text="TLC checks the Tier-A clauses (peek purity, peek = next, strict advance, reread after move_to_token equal, "
+             "tiling/lossless, bounded number of reads, termination) on a reader machine built on a transcription of "
+             "impl_peek_token, and both as_implemented variants (peek moving in tolerant mode, zero-width placeholder) "
+             "must give counterexamples; the token sequence TLC prints for every (string, configuration, mode) is "
+             "replayed on the real reader through peek/next/move_to_token/next at every token; deviating and sampled "
+             "executions are validated by TLC against the TokStream acceptor (event traces), which decides violation vs "
+             "drift.",
+        note="Bounded: strings of <=3 atoms over 21 atoms x 16 configurations x {strict, tolerant} plus <=4 atoms for the "
+             "default configuration (quick); <=4 atoms x 24 configurations and <=5 default (thorough). Token equality is "
+             "equality of the public projection.",
+        technique="TLA+ reader model (Tokenizer.tla, TokReader.tla) model-checked with TLC and replayed; implementation "
+                  "event traces validated by TLC against an acceptor spec (TokStream.tla)",
+        ref="DESIGN.md §5 C11"),
     'C14': dict(
         text="TLC explores every history of the context-database mutators and derivations up to the bound on a "
              "reference model that keeps both bookkeeping structures of the code, and checks lookup-follows-reported-"
@@ -32,6 +46,19 @@ CHECKS = {
         technique="TLA+ model of file-system layouts and the resolution steps (InputFile.tla), TLC; every model behaviour "
                   "replayed on real directories",
         ref="DESIGN.md §5 C15"),
+    'C17': dict(
+        text="TLC checks Cached (cached tables = tables recomputed from the fields) and BehavesLikeFresh on a model of "
+             "sub_context() with its per-group recompute-or-inherit rules for every chain up to the bound; the "
+             "as_implemented variant must give a counterexample; every chain (not only every state: inheritance bugs are "
+             "path-dependent) is applied to real ParsingState objects, and the derived state is compared with "
+             "ParsingState(**derived.get_fields()) on every string of the test alphabet (token streams) and on probe "
+             "documents (parse trees); ancestors' get_fields() must be unchanged; fields and probe token streams must "
+             "equal the model's.",
+        note="Bounded: all chains of <=2 sub_context calls over 126 change sets (quick; strings <=2 atoms over 16 atoms), "
+             "plus chains of 3 (one per state and last change) in thorough. enable_* flags other than enable_math and "
+             "enable_groups are assumed not to interact with cached tables.",
+        technique="TLA+ model of ParsingState.sub_context (PState.tla) model-checked with TLC; every chain replayed",
+        ref="DESIGN.md §5 C17"),
     'C20': dict(
         text="TLC checks the scanner model against the statement (TableOK, Complete, termination) for every string up "
              "to the bound and every offset triple; every table TLC prints is compared position by position with the "
